@@ -39,13 +39,20 @@ def run_c06(tier):
     ck = vlib.Check('C06', tier, 'model_checking')
     seed = vlib.seed()
     maxn = 5 if tier == 'quick' else 6
-    sizes = {7, 8, 9, 15, 16, 17, 33} if tier == 'quick' else {7, 8, 9, 15, 16, 17, 24, 25, 33, 64, 65, 100, 127, 200, 254}
+    sizes = {7, 8, 9, 15, 16, 17, 33} if tier == 'quick' else {7, 8, 9, 15, 16, 17, 23, 24, 25, 31, 32, 33, 41, 49, 57, 64, 65}
     res = vlib.tlc(SPEC, 'ThresholdMath', vlib.cfg({'Q': 257, 'MaxN': maxn, 'Sizes': sizes, 'Mutation': 'none'},
                    invariants=['Interpolates', 'LimbFits', 'Emit']), name='tmath', timeout=3000)
     if not res.ok:
         raise vlib.Undecided('ThresholdMath: %s %s' % (res.violated, res.error))
     ck.add_states(res, 'Lagrange transcription over F_257: all ordered (t+1)-subsets of 1..n, n<=%d; structured sizes %s' % (maxn, sorted(sizes)))
     mcases = tlc_cases(res.out)
+    # longer structured sequences (same four shapes as ThresholdMath.Structured), beyond what TLC evaluates in reasonable time:
+    # executed on the real code against the reference interpolation only
+    for k in ([65, 100] if tier == 'quick' else [66, 100, 127, 128, 129, 200, 253, 254]):
+        mcases.append({'n': 254, 'ind': list(range(1, k + 1))})
+        mcases.append({'n': 254, 'ind': [255 - j for j in range(1, k + 1)]})
+        mcases.append({'n': 254, 'ind': [(j + 1) // 2 if j % 2 == 1 else 255 - j // 2 for j in range(1, k + 1)]})
+        mcases.append({'n': 254, 'ind': [((j * 37 + 11) % 254) + 1 for j in range(1, k + 1)]})
     neg = 0
     for mut, inv in [('nosign', 'Interpolates'), ('batch9', 'LimbFits')]:
         r = vlib.tlc(SPEC, 'ThresholdMath', vlib.cfg({'Q': 257, 'MaxN': 3, 'Sizes': {9, 17}, 'Mutation': mut}, invariants=[inv]), name='tmneg')
